@@ -76,6 +76,10 @@ def run(c):
         # header octets that routing ignores, non-zero
         for e in pick[:3]:
             for v in hdr_variants(m, base["inp"] + e): add(v)
+        # ... and every value of each such octet on the bare message (thorough: also with one element behind it)
+        for v in hdr_sweep(m, base["inp"]): add(v)
+        if thorough:
+            for v in hdr_sweep(m, base["inp"] + pick[0], step=3): add(v)
         # unknown identifier octets between / around elements
         unk = [b for b in range(256) if (b if b < 128 else b // 16) not in known]
         alias = [b for b in range(16)]
